@@ -53,7 +53,7 @@ class Journaler:
         )
         for sessionInfo in self.cursor:
             session = FIXSession(sessionInfo[0], sessionInfo[1], sessionInfo[2])
-            session.next_num_out = sessionInfo[3]
+            session.next_num_out = sessionInfo[3] + 1
             session.next_num_in = sessionInfo[4] + 1
             sessions[(session.target_comp_id, session.sender_comp_id)] = session
 
